@@ -319,6 +319,11 @@ FIXED = [
     ('fn f(x: i32) -> i32\n{\n\tvar r: i32 = 0;\n\tif x == 1\n\t\tgoto next;\n\tvar a: i32 = 2;\n\tif x == 2\n\t\tgoto next;\n\tnext:\n\tr = a;\n\treturn: r\n}\n', {'482'}, 'two gotos, the first one skips the declaration'),
     ('fn f(x: i32) -> i32\n{\n\tvar r: i32 = 0;\n\tvar a: i32 = 2;\n\tif x == 2\n\t\tgoto next;\n\tvar b: i32 = 2;\n\tif x == 1\n\t\tgoto next;\n\tnext:\n\tr = b;\n\treturn: r\n}\n', {'482'}, 'two gotos, only the first one skips the declaration'),
     ('fn f(x: i32) -> i32\n{\n\tvar r: i32 = 0;\n\tif x == 1\n\t\tgoto a;\n\tvar v: i32 = 2;\n\ta:\n\tr = 1;\n\tif x == 2\n\t\tgoto b;\n\tr = 2;\n\tb:\n\tr = v;\n\treturn: r\n}\n', {'482'}, 'the doubt survives a second label'),
+    # the parameters of a function head WITHOUT body live in a scope of their own, like those of a function with a body
+    ('extern fn h(p: i32);\n\nfn f() -> i32\n{\n\treturn: p\n}\n', {'402'}, 'a parameter of a function head without body is not visible in a later function'),
+    ('extern fn h(p: i32);\n\nfn f(p: i32) -> i32\n{\n\treturn: p\n}\n', set(), 'a later parameter may reuse the name of a parameter of a function head without body'),
+    ('extern fn h(p: i32);\nextern fn k(p: i32);\n\nfn f() -> i32\n{\n\tvar p: i32 = 1;\n\treturn: p\n}\n', set(), 'two function heads and a later local variable share a parameter name'),
+    ('fn f() -> i32\n{\n\tvar p: i32 = 1;\n\treturn: p\n}\n\nextern fn h(p: i32);\n\nfn g() -> i32\n{\n\treturn: p\n}\n', {'402'}, 'a function head between two functions leaks nothing'),
 ]
 
 
